@@ -10,9 +10,11 @@ trap cleanup EXIT
 S=$w/src
 build_demo() {
   if [ -f "$d/demo.sh" ]; then cp "$d/demo.sh" "$w/demo.sh"; return 0; fi
-  gcc -std=gnu99 -w -g -D_GNU_SOURCE -I$S/include/qlibc -I$S/include -I$S/src/internal $(cat "$d/demo.flags" 2>/dev/null) "$@" "$d/demo.c" $S/src/containers/*.c $S/src/utilities/*.c $S/src/extensions/qconfig.c $S/src/extensions/qaconf.c $S/src/extensions/qlog.c $S/src/internal/*.c $S/src/internal/md5/*.c $S/src/ipc/*.c -lpthread $(cat "$d/demo.libs" 2>/dev/null) -o "$w/demo" 2>"$w/cc.log" || { echo "demo does not compile"; tail -5 "$w/cc.log"; return 1; }
+  # a demo that pulls an extension source in with #include "../extensions/x.c" must not get that file a second time
+  ext=""; for e in qconfig qaconf qlog; do grep -q "extensions/$e.c\"" "$d/demo.c" 2>/dev/null || ext="$ext $S/src/extensions/$e.c"; done
+  gcc -std=gnu99 -w -g -D_GNU_SOURCE -I$S/include/qlibc -I$S/include -I$S/src/internal $(cat "$d/demo.flags" 2>/dev/null) "$@" "$d/demo.c" $S/src/containers/*.c $S/src/utilities/*.c $ext $S/src/internal/*.c $S/src/internal/md5/*.c $S/src/ipc/*.c -lpthread $(cat "$d/demo.libs" 2>/dev/null) -o "$w/demo" 2>"$w/cc.log" || { echo "demo does not compile"; tail -5 "$w/cc.log"; return 1; }
 }
-run_demo() { if [ -f "$w/demo.sh" ]; then ( cd "$S" && SRC=$S timeout 300 sh "$w/demo.sh" ) >"$w/demo.out" 2>&1; else ( cd "$w" && timeout 300 ./demo ) >"$w/demo.out" 2>&1; fi; }
+run_demo() { if [ -f "$w/demo.sh" ]; then ( cd "$S" && SRC=$S timeout 300 sh "$d/demo.sh" "$S" ) >"$w/demo.out" 2>&1; else ( cd "$w" && timeout 300 ./demo ) >"$w/demo.out" 2>&1; fi; }
 build_demo "$@" || exit 2
 run_demo; r0=$?
 echo "unchanged tree: demo exit $r0"
